@@ -31,6 +31,10 @@ def one(src):
     prop = os.path.basename(os.path.dirname(src))
     mk = os.path.basename(src)
     name = f"{prop}-{mk}"
+    if "/out2/" in src:
+        name = f"{prop}-n{mk[1:]}"  # second round of sub-agents
+    elif "/out3/" in src:
+        name = f"{prop}-x{mk[1:]}"
     wt = f"/tmp/seedchk/{name}"
     os.makedirs("/tmp/seedchk", exist_ok=True)
     subprocess.run(f"git -C /repo worktree remove --force {wt}", shell=True, capture_output=True)
